@@ -312,6 +312,32 @@ impl Ex {
             },
         }
     }
+    /// the same tree without folding `Not(Var)` into a negative literal: every `Not` of the text
+    /// stays a `Not` node (stacked negations of a variable included)
+    pub fn to_logical_plain(&self, idx: &[usize]) -> rsdd::repr::LogicalExpr {
+        use rsdd::repr::LogicalExpr as L;
+        match self {
+            Ex::Var(v) => L::Literal(idx[*v], true),
+            Ex::Not(a) => L::Not(Box::new(a.to_logical_plain(idx))),
+            Ex::And(a, b) => L::And(Box::new(a.to_logical_plain(idx)), Box::new(b.to_logical_plain(idx))),
+            Ex::Or(a, b) => L::Or(Box::new(a.to_logical_plain(idx)), Box::new(b.to_logical_plain(idx))),
+            Ex::Iff(a, b) => L::Iff(Box::new(a.to_logical_plain(idx)), Box::new(b.to_logical_plain(idx))),
+            Ex::Xor(a, b) => L::Xor(Box::new(a.to_logical_plain(idx)), Box::new(b.to_logical_plain(idx))),
+            Ex::Ite(a, b, c) => L::Ite {
+                guard: Box::new(a.to_logical_plain(idx)),
+                thn: Box::new(b.to_logical_plain(idx)),
+                els: Box::new(c.to_logical_plain(idx)),
+            },
+        }
+    }
+    pub fn has_negated_var(&self) -> bool {
+        match self {
+            Ex::Var(_) => false,
+            Ex::Not(a) => matches!(a.as_ref(), Ex::Var(_)) || a.has_negated_var(),
+            Ex::And(a, b) | Ex::Or(a, b) | Ex::Iff(a, b) | Ex::Xor(a, b) => a.has_negated_var() || b.has_negated_var(),
+            Ex::Ite(a, b, c) => a.has_negated_var() || b.has_negated_var() || c.has_negated_var(),
+        }
+    }
     pub fn parse(s: &str) -> Option<Ex> {
         fn toks(s: &str) -> Vec<String> {
             s.replace('(', " ( ").replace(')', " ) ").split_whitespace().map(|x| x.to_string()).collect()
